@@ -438,6 +438,7 @@ func runC09(c *core.Ctx) {
 	c09Placements(c, sp)
 	c09KeyInfoShapes(c)
 	c09KeyPlacement(c, sp)
+	c09KeyTransports(c, sp)
 	c09EncryptedLengths(c, sp)
 }
 
@@ -1292,6 +1293,77 @@ func c09KeyPlacement(c *core.Ctx, sp *saml.ServiceProvider) {
 					genuine := place == "embedded" || (place == "sibling+retrievalmethod" && uri == "#"+ekID && ekID != "") || place == "embedded+sibling"
 					if !pan && genuine && e != nil && place == "embedded" {
 						t.Fail("C09/ParseXMLResponse-encrypted/rejects-valid/key-placement", "%s: a correctly encrypted and signed assertion is rejected: %s", key, privErr(e))
+					}
+					if t.Failed() {
+						t.Input("input", string(trunc(doc, 6000)))
+					}
+				})
+			}
+		}
+	}
+}
+
+// c09KeyTransports: what the EncryptedKey of an EncryptedAssertion declares about how the key was wrapped - transport algorithm x
+// DigestMethod x MGF, all attacker-written and outside every signature. Where the independent implementation can wrap that way it does;
+// otherwise a SHA-1-wrapped key is sent under the other declaration. Every combination gets an answer (assertion or error); the
+// plain SHA-1 arrangements decrypt.
+func c09KeyTransports(c *core.Ctx, sp *saml.ServiceProvider) {
+	c.Group("encrypted-assertion-key-transport-declarations")
+	ids := []string{samlgen.ReqID}
+	pt := samlgen.Doc(func() *etree.Element {
+		a := samlgen.DefaultAssertion().Element()
+		samlgen.Sign(a, idp1(), "")
+		return a
+	}())
+	algs := []string{xenc.OAEPMGF1P, xenc.OAEP11, xenc.RSA15, "http://www.w3.org/2001/04/xmlenc#rsa-oaep", ""}
+	digests := []string{"", "http://www.w3.org/2000/09/xmldsig#sha1", "http://www.w3.org/2000/09/xmldsig#sha256", "http://www.w3.org/2000/09/xmldsig#sha512", "http://www.w3.org/2000/09/xmldsig#ripemd160",
+		"http://www.w3.org/2001/04/xmlenc#sha256", "http://www.w3.org/2001/04/xmlenc#sha512", "http://www.w3.org/2001/04/xmlenc#ripemd160", "http://www.w3.org/2001/04/xmldsig-more#sha384", "http://www.w3.org/2001/04/xmldsig-more#sha224",
+		"http://www.w3.org/2001/04/xmldsig-more#md5", "http://www.w3.org/2007/05/xmldsig-more#sha3-256", "urn:unknown:digest", "\x00absent-attribute", " http://www.w3.org/2000/09/xmldsig#sha1 "}
+	mgfs := []string{"", "http://www.w3.org/2009/xmlenc11#mgf1sha1", "http://www.w3.org/2009/xmlenc11#mgf1sha256", "http://www.w3.org/2009/xmlenc11#mgf1sha512", "http://www.w3.org/2009/xmlenc11#mgf1sha224", "urn:unknown:mgf"}
+	for ai, alg := range algs {
+		for di, dg := range digests {
+			for mi, mgf := range mgfs {
+				if mi > 0 && ai > 1 && di > 1 {
+					continue
+				}
+				alg, dg, mgf := alg, dg, mgf
+				key := fmt.Sprintf("keytransport/alg=%d/digest=%d/mgf=%d", ai, di, mi)
+				c.Case(key, func(t *core.T) {
+					t.NonTrivial()
+					pub := &spKey().Key.(*rsa.PrivateKey).PublicKey
+					declared := xenc.KeyTransport{Alg: alg, DigestURI: dg, MGFURI: mgf}
+					real := true
+					ed, err := xenc.Encrypt(xenc.AES128CBC, declared, pub, spKey().CertB64, harness.NewCtr(key), pt)
+					if err != nil || dg == "\x00absent-attribute" {
+						real = false
+						ed, err = xenc.Encrypt(xenc.AES128CBC, xenc.KeyTransport{Alg: xenc.OAEPMGF1P, DigestURI: "http://www.w3.org/2000/09/xmldsig#sha1"}, pub, spKey().CertB64, harness.NewCtr(key), pt)
+						if err != nil {
+							t.Fail("C09/harness", "cannot encrypt: %v", err)
+							return
+						}
+						// same wrapped key, the other declaration
+						ek := ed.FindElement("./KeyInfo/EncryptedKey")
+						old := ek.FindElement("./EncryptionMethod")
+						nw := xenc.EncryptedKeyEl(declared, "", nil).FindElement("./EncryptionMethod")
+						if dg == "\x00absent-attribute" {
+							if dm := nw.FindElement("./DigestMethod"); dm != nil {
+								dm.RemoveAttr("Algorithm")
+							}
+						}
+						idx := old.Index()
+						ek.RemoveChild(old)
+						ek.InsertChildAt(idx, nw.Copy())
+					}
+					ea := etree.NewElement("saml:EncryptedAssertion")
+					ea.CreateAttr("xmlns:saml", samlgen.NSAssertion)
+					ea.AddChild(ed)
+					resp := samlgen.DefaultResponse().Element()
+					resp.AddChild(ea)
+					doc := samlgen.Doc(resp)
+					e, pan := respContract(t, "ParseXMLResponse-encrypted", "key-transport-declaration", func() (*saml.Assertion, error) { return parseXML(sp, doc, ids) })
+					plain := real && alg == xenc.OAEPMGF1P && (dg == "" || dg == "http://www.w3.org/2000/09/xmldsig#sha1") && mgf == ""
+					if !pan && plain && e != nil {
+						t.Fail("C09/ParseXMLResponse-encrypted/rejects-valid/key-transport-declaration", "%s: a correctly encrypted (rsa-oaep-mgf1p, SHA-1) and signed assertion is rejected: %s", key, privErr(e))
 					}
 					if t.Failed() {
 						t.Input("input", string(trunc(doc, 6000)))
